@@ -123,12 +123,20 @@ def replay_explorer(module, case):
     import traceback
 
     ctx = Ctx(module.PID, case.get("tier", "quick"), int(case.get("seed", 0)), module)
+    out = []
     try:
         module.run(ctx)
     except Exception as ex:
         if raised_in_production(traceback.format_exc()):
-            return [("production_code_raised_during_exploration", "no exception from production code", f"{type(ex).__name__}: {str(ex)[:160]}")]
-    return []
+            out.append(("production_code_raised_during_exploration", "no exception from production code", f"{type(ex).__name__}: {str(ex)[:160]}"))
+    # the candidates the whole exploration raises again (known findings excluded): used for violations that only show in
+    # the context of the exploration's earlier calls (state kept by production code across cases)
+    for clause, lst in ctx.cands.items():
+        for c_, exp, obs in lst:
+            if ctx.findings.match(module.PID, clause, c_) is None:
+                out.append((clause, exp, obs))
+                break
+    return out
 
 
 class Findings:
@@ -232,6 +240,7 @@ class Ctx:
         reported = []
         harness_errors = []
         per_clause = {}
+        self.context_missing = {}
         for clause, case, exp, obs in unlisted:
             if per_clause.get(clause, 0) >= MAX_STORED_PER_CLAUSE:
                 continue
@@ -266,6 +275,7 @@ class Ctx:
                 harness_errors.append(
                     f"candidate for clause {clause} did not reproduce in single-case replay (got {c1})"
                 )
+                self.context_missing.setdefault(clause, (exp, obs))
                 continue
             per_clause[clause] = per_clause.get(clause, 0) + 1
             rec = {
@@ -284,6 +294,20 @@ class Ctx:
             p.write_text(json.dumps(rec, indent=1, sort_keys=True))
             reported.append((clause, p, exp, obs))
 
+        if not reported and self.context_missing:
+            # candidates that no single-case replay reproduces: the violation may need the state production code kept from
+            # the exploration's EARLIER cases. The replayable unit is then the whole exploration: run it twice more; a
+            # clause that both re-runs raise again (on cases that are not known findings) is a violation.
+            ecase = {"kind": "__explorer__", "tier": self.tier, "seed": self.seed}
+            again = [{c for c, _, _ in replay_explorer(self.module, ecase)} for _ in range(2)]
+            for clause, (exp, obs) in self.context_missing.items():
+                if all(clause in a for a in again):
+                    d = REPLAY_DIR / self.pid
+                    d.mkdir(parents=True, exist_ok=True)
+                    p = d / f"explorer_context_{clause}.json"
+                    p.write_text(json.dumps({"property": self.pid, "clause": clause, "case": ecase, "expected": jsonable(exp), "observed": jsonable(obs), "tier": self.tier, "seed": self.seed, "note": "reproduces only within the whole exploration (depends on earlier calls in the same process)"}, indent=1))
+                    reported.append((clause, p, exp, obs))
+                    harness_errors = [h for h in harness_errors if f"clause {clause} did not reproduce" not in h]
         for e in known_hit.values():
             print(f"KNOWN-FINDING: property={self.pid} {e['id']}: {e['what']}")
         for clause, p, exp, obs in reported:
